@@ -1,5 +1,7 @@
 import ShootVerif.Proofs.MapperPairs
 import ShootVerif.Proofs.MapperNames
+import ShootVerif.Proofs.MapperFlatten
+import ShootVerif.Gen.Facts
 /-!
 C05 — ToX/FromX copy exactly the matching field pairs, by the type rules.
 
@@ -55,6 +57,58 @@ theorem C05_unmatched_zero (inp : Input) :
 /-- a `map:"-"` field at the top level is not a field of the generator at all -/
 theorem C05_skip_tag (f : FDecl) (rest : Tree) (h : f.tag = .skip) : walkTop (.field f rest) = walkTop rest := by
   simp [walkTop, h]
+
+/-- Go's promotion rule in the field collector: the entry kept for a name is one of the visited fields of
+    that name (same path, type, depth), no visited field of that name is shallower, names are collected
+    once — whatever the order in which embedded structs and redeclared names are visited (a deeper
+    field visited first is replaced by a shallower one visited later) -/
+theorem C05_flatten_shallowest (t : Tree) :
+    ((flatten t).map (·.name)).Nodup ∧
+    (∀ f ∈ flatten t, ∃ g ∈ walkTop t, g.name = f.name ∧ g.path = f.path ∧ g.ty = f.ty ∧ g.depth = f.depth) ∧
+    (∀ f ∈ flatten t, ∀ g ∈ walkTop t, g.name = f.name → f.depth ≤ g.depth) ∧
+    (∀ g ∈ walkTop t, ∃ f ∈ flatten t, f.name = g.name) :=
+  let h := flatten_shallowest t
+  ⟨h.nodup, fun f hf => let ⟨g, hg, e⟩ := h.fromSeen f hf; ⟨g, hg, e.1.symm, e.2.1.symm, e.2.2.1.symm, e.2.2.2.symm⟩,
+   h.minimal, h.covers⟩
+
+/-- Record{*Base}; Base{*Audit; ID}; Audit{ID; Label}: the deeper `ID` is visited first, the collected one is Base.ID -/
+example : ((flatten (.embed "Base" true
+      (.embed "Audit" true (.field { name := "ID", ty := .basic "int" } (.field { name := "Label", ty := .basic "string" } .nil))
+        (.field { name := "ID", ty := .basic "int" } .nil)) .nil)).map (fun f => (f.name, f.path, f.depth))) =
+    [("ID", ["Base", "ID"], 1), ("Label", ["Base", "Audit", "Label"], 2)] := by decide
+
+/-! ### the model plans one type at a time: nothing computed for one type may reach the next
+
+`plan` is a function of one src/dest pair (and the mapper methods of THAT type) alone. That is sound for a
+run that generates several types (`-type=A,B`, `-file=`, `-type=*`) as long as every field of
+`mapper.Generator` that `MakeData` reads is assigned afresh for every type. Checked on the table of
+Generator fields and of the functions assigning them, REGENERATED from /repo on every run
+(Gen/Facts.lean): the fields are exactly these; each per-type field has a plain assignment (`set`) in a
+function that `MakeData` runs for every type — `mappingFuncList` in `loadMorePkgs`, the constructor
+parameter and accessor lists in `MakeData` itself, the field lists / tag map / pointer maps in
+`parseSrcFields` / `parseDestFields`, the write-sets in `parseManual`, the read/write maps in
+`makeTypeMismatch`, the path maps in `makeReadCond`, `data` in `MakeData`; what outlives a type is
+`flags` (ParseFlags), `destPkg` (LoadPackage), `mapperpkg` (set when a mapper is found, read only then)
+and the `newShooter` cache. (Correspondence side: the multi-type runs with a companion type first.) -/
+def perTypeResets : List (String × String) :=
+  [("data", "MakeData"), ("srcCtorParams", "MakeData"), ("destCtorParams", "MakeData"),
+   ("getsetMethods", "MakeData"), ("destGetSetMethods", "MakeData"), ("mappingFuncList", "loadMorePkgs"),
+   ("exportedFields", "parseSrcFields"), ("unexportedFields", "parseSrcFields"), ("srcTagMap", "parseSrcFields"),
+   ("srcPtrTypeMap", "parseSrcFields"), ("destExportedFields", "parseDestFields"),
+   ("destUnexportedFields", "parseDestFields"), ("destPtrTypeMap", "parseDestFields"),
+   ("writeSrcSet", "parseManual"), ("writeDestSet", "parseManual"),
+   ("readSrcMap", "makeTypeMismatch"), ("writeSrcMap", "makeTypeMismatch"),
+   ("srcPathsMap", "makeReadCond"), ("destPathsMap", "makeReadCond")]
+
+def persistentFields : List String := ["GeneratorBase", "flags", "destPkg", "mapperpkg", "newShooter"]
+
+theorem C05_state_per_type :
+    ((Facts.genStateFields.filter (fun f => f.1 = "internal/mapper" && f.2.1 = "Generator")).all
+        (fun f => persistentFields.contains f.2.2.1 || (perTypeResets.map (·.1)).contains f.2.2.1) = true) ∧
+    (perTypeResets.all (fun r => Facts.genStateWrites.contains ("internal/mapper", r.2, r.1, "set")) = true) ∧
+    ((Facts.genStateWrites.filter (fun w => w.1 = "internal/mapper" && w.2.2.1 == "flags")).all (fun w => w.2.1 == "ParseFlags") = true) ∧
+    ((Facts.genStateWrites.filter (fun w => w.1 = "internal/mapper" && w.2.2.1 == "destPkg")).all (fun w => w.2.1 == "LoadPackage") = true) := by
+  decide
 
 /-- headline: with unique name matching, destination field `d` is written from source field `s`
     iff the names match and a strategy exists — and the strategy is `pairStrat` (C05_strategy says
